@@ -90,7 +90,8 @@ class Renderer(object):
         """Keyword aliases of `kind` that no earlier step kind would claim (parse order given..but)."""
         out = []
         if kind == "star":
-            cands = ["* "]
+            # (two languages of the table - sl, en-tx - have no generic "*" keyword)
+            cands = ["* "] if any(a.strip() == "*" for a in self.kw["given"]) else []
         else:
             cands = [a for a in self.kw[kind] if a.strip() != "*"]
         order = STEP_KINDS
@@ -152,7 +153,10 @@ class Renderer(object):
 
     def table(self, rows):
         out = []
-        for r in rows:
+        for k, r in enumerate(rows):
+            if k and self.fillers:
+                # blank / comment lines BETWEEN table rows (the parser skips them; row line numbers must not)
+                self.emit(["", "      # | commented | row |", "   "], "filler")
             plain = "| " + " | ".join(c.replace("|", "\\|") for c in r) + " |"
             tight = "|" + "|".join(c.replace("|", "\\|") for c in r) + "|"
             wide = "|   " + "   |  ".join(c.replace("|", "\\|") for c in r) + "  |"
@@ -263,6 +267,19 @@ TREES = {
             {"k": "o", "name": "outline in rule", "tags": [], "desc": [], "steps": [st("star", "generic in rule outline"), st("then", "t <v>")],
              "examples": [{"name": "E", "tags": ["x"], "table": [["v"], ["2"], ["3"]]}]},
             {"k": "s", "name": "last", "tags": [], "desc": [], "steps": [st("star", "generic last")]},
+        ]},
+    ]},
+    "o-rule": {"name": "Rule after outline", "tags": [], "desc": [], "bg": None, "items": [
+        {"k": "s", "name": "first", "tags": [], "desc": [], "steps": [st("given", "g1")]},
+        {"k": "o", "name": "outline before rule", "tags": [], "desc": [], "steps": [st("given", "g <v>")],
+         "examples": [{"name": "", "tags": [], "table": [["v"], ["1"]]}]},
+        {"k": "r", "name": "R after outline", "tags": ["rt"], "desc": ["rule description"], "bg": None, "items": [
+            {"k": "s", "name": "in rule", "tags": [], "desc": [], "steps": [st("when", "w1")]},
+            {"k": "o", "name": "outline in rule", "tags": [], "desc": [], "steps": [st("then", "t <v>")],
+             "examples": [{"name": "E", "tags": [], "table": [["v"], ["2"]]}]},
+        ]},
+        {"k": "r", "name": "R after outline in rule", "tags": [], "desc": [], "bg": None, "items": [
+            {"k": "s", "name": "last", "tags": [], "desc": [], "steps": [st("given", "g9")]},
         ]},
     ]},
 }
